@@ -5,8 +5,10 @@ package deadline
 import (
 	"context"
 	"errors"
+	"math/big"
 	"time"
 
+	"github.com/attestantio/go-block-relay/services/blockauctioneer"
 	builderclient "github.com/attestantio/go-builder-client"
 	builderapi "github.com/attestantio/go-builder-client/api"
 	buildercapella "github.com/attestantio/go-builder-client/api/capella"
@@ -22,7 +24,9 @@ import (
 	"github.com/attestantio/vouch/services/blockrelay"
 	"github.com/attestantio/vouch/util"
 	"github.com/holiman/uint256"
+	"github.com/rs/zerolog"
 	"github.com/shopspring/decimal"
+	"go.opentelemetry.io/otel/trace"
 )
 
 // c09Relay answers its k-th request after latency[k] with bid[k] (or an error).
@@ -167,7 +171,6 @@ func c09Deadline(n int) {
 	vnd.Assert(inProviders, "C09.deadline.winners-relay-among-unblinding-providers")
 }
 
-
 // VerifC16_DeadlineBidShapes: one relay's query loop of the deadline strategy
 // over bids of any shape a relay can return (no bid, empty bid, value zero /
 // below / at / above the relay's minimum, zero fee recipient, wrong timestamp,
@@ -220,4 +223,170 @@ func VerifC16_DeadlineBidShapes() {
 	if passed > 0 {
 		vnd.Cover("C16.deadline.bid-passed-on")
 	}
+}
+
+// ndBid builds a capella bid with symbolic value, fee recipient, timestamp,
+// builder key and header (block hash).
+func ndBid(prefix string) (*builderspec.VersionedSignedBuilderBid, uint64) {
+	val := vnd.SmallU64(prefix+".value", 40)
+	hdr := &capella.ExecutionPayloadHeader{
+		FeeRecipient: bellatrix.ExecutionAddress(vnd.Addr(prefix + ".fee-recipient")),
+		Timestamp:    vnd.U64(prefix + ".timestamp"),
+		BlockHash:    phase0.Hash32(vnd.Root(prefix + ".block-hash")),
+		ExtraData:    []byte{},
+	}
+	bid := &builderspec.VersionedSignedBuilderBid{Version: consensusspec.DataVersionCapella, Capella: &buildercapella.SignedBuilderBid{
+		Message: &buildercapella.BuilderBid{Header: hdr, Value: uint256.NewInt(val), Pubkey: phase0.BLSPubKey(vnd.PubKey(prefix + ".builder"))},
+	}}
+	return bid, val
+}
+
+// c09Score is the reference score: ((value + offset) * factor) div 100.
+func c09Score(val uint64, cfg *blockrelay.BuilderConfig) *big.Int {
+	score := new(big.Int).SetUint64(val)
+	if cfg != nil && cfg.Offset != nil {
+		score = new(big.Int).Add(score, cfg.Offset)
+	}
+	if cfg != nil && cfg.Factor != nil {
+		score = new(big.Int).Div(new(big.Int).Mul(score, cfg.Factor), big.NewInt(100))
+	}
+	return score
+}
+
+// VerifC09_DeadlineFold: one step of the auction fold from an arbitrary result state
+// satisfying the invariant: the winner has the highest non-zero score seen,
+// every listed provider offered the winner's header, the winner's relay is listed.
+func VerifC09_DeadlineFold() {
+	s := &Service{chainTime: vstub.NewChainTime(0)}
+	res := &blockauctioneer.Results{Participation: map[string]*blockauctioneer.Participation{}}
+	relays := []*c09Relay{{name: "relay-a"}, {name: "relay-b"}}
+	// builder configurations
+	builderA := phase0.BLSPubKey{1}
+	cfgs := map[phase0.BLSPubKey]*blockrelay.BuilderConfig{}
+	var cfgA *blockrelay.BuilderConfig
+	if vnd.Bool("builder.configured") {
+		cfgA = &blockrelay.BuilderConfig{Category: "priority"}
+		if vnd.Bool("builder.offset") {
+			cfgA.Offset = new(big.Int).SetUint64(vnd.SmallU64("offset", 40))
+			if vnd.Bool("offset.negative") {
+				cfgA.Offset = new(big.Int).Neg(cfgA.Offset)
+			}
+		}
+		if vnd.Bool("builder.factor") {
+			factors := []int64{0, 50, 100, 150}
+			cfgA.Factor = big.NewInt(factors[vnd.Choose("factor", len(factors))])
+		}
+		cfgs[builderA] = cfgA
+	}
+	// pre-state: no winner, or a winner from relay-a with an arbitrary score
+	var oldScore *big.Int
+	var oldBid *builderspec.VersionedSignedBuilderBid
+	if vnd.Bool("pre.has-winner") {
+		var v uint64
+		oldBid, v = ndBid("old")
+		vnd.Assume(v > 0)
+		oldScore = new(big.Int).SetUint64(v)
+		res.WinningParticipation = &blockauctioneer.Participation{Score: oldScore, Bid: oldBid, Category: "standard"}
+		res.Providers = []builderclient.BuilderBidProvider{relays[0]}
+		res.Participation["relay-a"] = res.WinningParticipation
+	}
+	// the new response: an eligible bid from relay-b, by builder A or an unconfigured builder
+	bid, val := ndBid("new")
+	vnd.Assume(val > 0)
+	cfg := (*blockrelay.BuilderConfig)(nil)
+	if vnd.Bool("new.by-configured-builder") {
+		bid.Capella.Message.Pubkey = builderA
+		cfg = cfgA
+	} else {
+		bid.Capella.Message.Pubkey = phase0.BLSPubKey{2}
+	}
+	if oldBid != nil && vnd.Bool("new.same-header-as-winner") {
+		bid.Capella.Message.Header = oldBid.Capella.Message.Header
+	}
+	// "offers the winning payload" = same header root (hash-tree-root is an uninterpreted function)
+	sameHeader := false
+	if oldBid != nil {
+		r1, _ := bid.HeaderHashTreeRoot()
+		r2, _ := oldBid.HeaderHashTreeRoot()
+		sameHeader = r1 == r2
+	}
+	s.setBuilderBid(context.Background(), res, &builderBidResponse{provider: relays[1], bid: bid, score: new(big.Int).SetUint64(val)}, cfgs)
+
+	want := c09Score(val, cfg)
+	p := res.Participation["relay-b"]
+	vnd.Assert(p != nil && p.Bid == bid && p.Score.Cmp(want) == 0, "C09.deadlinefold.participation-records-bid-and-reference-score")
+	newWins := want.Sign() != 0 && (oldScore == nil || want.Cmp(oldScore) > 0)
+	if newWins {
+		vnd.Cover("C09.deadlinefold.new-winner")
+		vnd.Assert(res.WinningParticipation == p, "C09.deadlinefold.higher-non-zero-score-wins")
+		vnd.Assert(len(res.Providers) == 1 && res.Providers[0] == builderclient.BuilderBidProvider(relays[1]), "C09.deadlinefold.providers-reset-to-winners-relay")
+	} else {
+		vnd.Cover("C09.deadlinefold.winner-kept")
+		if oldScore == nil {
+			vnd.Assert(res.WinningParticipation == nil, "C09.deadlinefold.zero-score-never-wins")
+		} else {
+			vnd.Assert(res.WinningParticipation.Bid == oldBid && res.WinningParticipation.Score == oldScore, "C09.deadlinefold.lower-or-equal-score-does-not-replace-winner")
+			vnd.Assert(res.Providers[0] == builderclient.BuilderBidProvider(relays[0]), "C09.deadlinefold.winners-relay-stays-listed")
+			listed := len(res.Providers) == 2
+			if listed {
+				vnd.Assert(sameHeader && want.Sign() != 0, "C09.deadlinefold.only-relays-offering-the-winning-header-are-listed")
+			}
+			if sameHeader && want.Sign() != 0 {
+				vnd.Assert(listed, "C09.deadlinefold.relay-offering-the-winning-header-is-listed")
+			}
+		}
+	}
+	// invariant: winner's score is maximal among recorded non-zero participations
+	if res.WinningParticipation != nil {
+		for _, q := range res.Participation {
+			if q.Score.Sign() != 0 {
+				vnd.Assert(res.WinningParticipation.Score.Cmp(q.Score) >= 0, "C09.deadlinefold.winner-has-highest-score")
+			}
+		}
+		vnd.Assert(res.WinningParticipation.Score.Sign() != 0, "C09.deadlinefold.winner-score-non-zero")
+	}
+}
+
+// VerifC09_DeadlineEligible: one request of the deadline strategy's relay loop:
+// the answer is passed on as a bid exactly when it is eligible (value non-zero
+// and at least the relay's minimum, non-zero fee recipient, timestamp equal to
+// the slot start; no relay key known) and improves on the relay's previous bid.
+func VerifC09_DeadlineEligible() {
+	ct := vstub.NewChainTime(0)
+	s := &Service{chainTime: ct}
+	bid, val := ndBid("bid")
+	relay := &c09Relay{name: "relay-a", start: vnd.NowNs(), latency: []time.Duration{0}, fail: []bool{vnd.Bool("relay.fail")}, bids: []*builderspec.VersionedSignedBuilderBid{bid}}
+	if vnd.Bool("relay.nil-bid") {
+		relay.bids[0] = nil
+	}
+	min := vnd.SmallU64("relay.min-value", 40)
+	rc := &beaconblockproposer.RelayConfig{Address: "relay-a", MinValue: decimal.New(int64(min), 0)}
+	// the relay's previous bid in this auction, if any
+	var last *builderspec.VersionedSignedBuilderBid
+	lastVal := uint64(0)
+	if vnd.Bool("has-previous-bid") {
+		last, lastVal = ndBid("previous")
+		vnd.Assume(lastVal > 0)
+	}
+	respCh := make(chan *builderBidResponse, 2)
+	errCh := make(chan *builderBidError, 2)
+	log := zerolog.Nop()
+	s.builderBidAttempt(context.Background(), &log, trace.SpanFromContext(context.Background()), relay, respCh, errCh, c09Slot, phase0.Hash32{}, phase0.BLSPubKey{}, rc, last, last, 0)
+	hdr := bid.Capella.Message.Header
+	slotStart := uint64(ct.StartOfSlot(c09Slot).Unix())
+	eligible := !relay.fail[0] && relay.bids[0] != nil && val != 0 && val >= min &&
+		hdr.FeeRecipient != (bellatrix.ExecutionAddress{}) && hdr.Timestamp == slotStart
+	var resp *builderBidResponse
+	select {
+	case resp = <-respCh:
+	default:
+	}
+	if eligible && (last == nil || val > lastVal) {
+		vnd.Cover("C09.deadline-eligible.passed-on")
+		vnd.Assert(resp != nil && resp.bid == bid && resp.score.Cmp(new(big.Int).SetUint64(val)) == 0, "C09.deadline-eligible.eligible-improving-bid-is-passed-on-with-its-value")
+	} else {
+		vnd.Cover("C09.deadline-eligible.not-passed-on")
+		vnd.Assert(resp == nil || resp.bid == nil, "C09.deadline-eligible.ineligible-or-not-improving-bid-never-passed-on")
+	}
+	vnd.Assert(relay.calls == 1, "C09.deadline-eligible.relay-asked-once")
 }
